@@ -131,7 +131,10 @@ Definition send_l2cap_pdu (known : bool) (h m cid : Z) (payload : bytes) : optio
   end.
 
 (* ------------------------------------------------------------------ HCI_AclDataPacketAssembler *)
-(* state: (current_data, l2cap_pdu_length) *)
+(* feed_packet after fix D05b: a start fragment is stored as it is; the L2CAP length is decoded
+   from the accumulated data as soon as two bytes are present (before the fix a start fragment
+   shorter than 2 bytes raised struct.error, see [feed_before_d05b]).
+   state: (current_data, l2cap_pdu_length) *)
 Definition asm := (option bytes * Z)%type.
 Definition asm_init : asm := (None, 0).
 
@@ -139,20 +142,42 @@ Inductive asm_ev :=
 | Deliver (pdu : bytes)   (* callback(current_data) *)
 | ContNoStart             (* '!!! ACL continuation without start': packet ignored *)
 | Overflow                (* '!!! ACL data exceeds L2CAP PDU': state reset *)
-| ShortStart              (* struct.error: start fragment shorter than the length field *)
+| ShortStart              (* only in feed_before_d05b: struct.error on a start fragment < 2 bytes *)
 | NoData.                 (* AssertionError: pb_flag 3 while nothing is being assembled *)
 
-(* the tail of feed_packet: compare len(current_data) with l2cap_pdu_length + 4 *)
+(* compare len(current_data) with l2cap_pdu_length + 4 *)
 Definition asm_check (cur : bytes) (l : Z) : asm * list asm_ev :=
   if blen cur =? l + 4 then (asm_init, [Deliver cur])
   else if blen cur >? l + 4 then (asm_init, [Overflow])
   else ((Some cur, l), []).
 
+(* the tail of feed_packet: if len(current_data) < 2: return; unpack '<H'; compare *)
+Definition asm_tail (cur : bytes) (l0 : Z) : asm * list asm_ev :=
+  match cur with
+  | b0 :: b1 :: _ => asm_check cur (rd16 b0 b1)
+  | _ => ((Some cur, l0), [])
+  end.
+
 Definition feed (s : asm) (p : acl) : asm * list asm_ev :=
   if (a_pb p =? 0) || (a_pb p =? 2) then
+    asm_tail (a_data p) 0                                     (* start overwrites; l2cap_pdu_length = 0 *)
+  else if a_pb p =? 1 then
+    match fst s with
+    | None => (s, [ContNoStart])
+    | Some cur => asm_tail (cur ++ a_data p) (snd s)
+    end
+  else
+    match fst s with
+    | None => (s, [NoData])
+    | Some cur => asm_tail cur (snd s)
+    end.
+
+(* feed_packet as it was before D05b *)
+Definition feed_before_d05b (s : asm) (p : acl) : asm * list asm_ev :=
+  if (a_pb p =? 0) || (a_pb p =? 2) then
     match a_data p with
-    | b0 :: b1 :: _ => asm_check (a_data p) (rd16 b0 b1)      (* start overwrites *)
-    | _ => (s, [ShortStart])                                  (* raises before any assignment *)
+    | b0 :: b1 :: _ => asm_check (a_data p) (rd16 b0 b1)
+    | _ => (s, [ShortStart])
     end
   else if a_pb p =? 1 then
     match fst s with
